@@ -328,8 +328,12 @@ class Contrast:
         # Unknown stat
         else:
             raise ValueError('Unknown statistic type')
-        self.stat_ = stat
-        return stat.ravel()
+        # cache the flattened statistic (p_value / z_score combine it with 1-D
+        # arrays) and drop the p-value cached for a previous baseline, which
+        # z_score(baseline) would otherwise reuse
+        self.stat_ = stat.ravel()
+        self.p_value_ = None
+        return self.stat_
 
     def p_value(self, baseline=0.0):
         """Return a parametric estimate of the p-value associated
